@@ -71,6 +71,47 @@ fn magnitudes(sh: Shape, radix_for_powers: u32) -> BoxedStrategy<Z> {
     .boxed()
 }
 
+/// largest p with radix^p <= 2^bits (the chunk size of the multiply-add parser for a digit size)
+fn chunk_power(radix: u32, bits: u32) -> usize {
+    let lim = Z::pow2(bits as u64);
+    let mut x = Z::one();
+    let mut p = 0;
+    loop {
+        let nx = x.mul(&Z::from_u64(radix as u64));
+        if nx > lim {
+            return p.max(1);
+        }
+        x = nx;
+        p += 1;
+    }
+}
+
+/// prefix-structured digit strings: numeral(P) followed by m whole chunks of further digits, where
+/// P is a structured BINARY pattern (zero / extreme binary digits), so that the running value of a
+/// Horner / chunked parser is structured at a chunk boundary. Digits most significant first.
+fn prefix_structured(sh: Shape, radix: u32) -> BoxedStrategy<Vec<u8>> {
+    let w = sh.bits() as u64;
+    let power = chunk_power(radix, sh.digit_bits());
+    (prop_oneof![gen::digitwise(sh), gen::runs(sh), gen::short(sh)], 1usize..4, proptest::collection::vec(0u32..radix, 3 * power), 0u8..3, 0usize..3)
+        .prop_map(move |(p, m, tail, tsel, zero_chunks)| {
+            let tail_len = m * power;
+            let scale_bits = Z::from_u64(radix as u64).pow_capped(tail_len as u32, w + 8).map_or(w, |s| s.bit_len());
+            let room = w.saturating_sub(scale_bits);
+            let zp = Z::from_le_unsigned(&p.0).mod_2k(room);
+            let mut ds: Vec<u8> = vec![0u8; zero_chunks * power];
+            ds.extend(zp.to_radix_be(radix));
+            for i in 0..tail_len {
+                ds.push(match tsel {
+                    0 => 0,
+                    1 => (radix - 1) as u8,
+                    _ => tail[i % tail.len()] as u8,
+                });
+            }
+            ds
+        })
+        .boxed()
+}
+
 /// (string bytes, radix): valid grammar strings, boundary strings, invalid strings
 fn strings(sh: Shape, radix: u32) -> BoxedStrategy<Bytes> {
     let w = sh.bits();
@@ -85,6 +126,8 @@ fn strings(sh: Shape, radix: u32) -> BoxedStrategy<Bytes> {
             if max_first { ds[0] = radix - 1; }
             ds.iter().enumerate().map(|(i, &d)| digit_char(d as u8, mode, i)).collect::<Vec<u8>>()
         }),
+        // structured running value at a chunk boundary
+        3 => (prefix_structured(sh, radix), 0u8..3).prop_map(move |(ds, mode)| ds.iter().enumerate().map(|(i, &d)| digit_char(d, mode, i)).collect::<Vec<u8>>()),
     ];
     let zeros = prop_oneof![6 => Just(0usize), 3 => 1usize..4, 3 => (0usize..6).prop_map(move |k| cap + k), 1 => (0usize..3).prop_map(move |k| 2 * cap + k)];
     let sign = prop_oneof![5 => Just(0u8), 2 => Just(1u8), 4 => Just(2u8)];
@@ -231,6 +274,7 @@ fn digit_slices(sh: Shape, radix: u32) -> BoxedStrategy<Bytes> {
             if mf { v[0] = (radix - 1) as u8; }
             v
         }),
+        3 => prefix_structured(sh, radix),
         1 => Just(Vec::new()),
     ];
     let zeros = prop_oneof![6 => Just(0usize), 3 => 1usize..4, 3 => (0usize..6).prop_map(move |k| cap + k)];
@@ -331,7 +375,7 @@ fn main() {
     runner::main(
         Property {
             id: "C10",
-            rule: "Grammar-based strings `sign? zeros{0..k} digits` for every radix 2..=36 in every run (cycled deterministically): digits come from the reference conversion of {0, 1, small, unsigned MAX, signed MAX, |MIN|, 2^W, 2^(W+1) (+-2), r^j +- 1, structured patterns} or are random digit strings of length capacity(r) + {-2..2}; k up to 2*capacity + 2 redundant leading zeros; lower/upper/mixed case letters; invalid strings = one foreign byte (space, tab, newline, NUL, '_', '.', '+', '-', '/', ':', '@', '[', '`', '{', a digit >= radix, multi-byte UTF-8 incl. a non-ASCII decimal digit) inserted at start / after the sign / middle / end of an otherwise valid string (half of them truncated to 1..5 digits so that the InvalidDigit requirement applies); empty string, lone signs, double signs; invalid UTF-8 for parse_bytes; out-of-range radices {0, 1, 37, 38, 255, 256, 257, u32::MAX}. Digit slices for from_radix_be/le: every radix 2..=256 in every run, built the same way, with excess most-significant zero digits, one digit >= radix injected, empty slice. Oracle: parse_model returns the SET of acceptable outcomes (exact Ok(v); exact PosOverflow/NegOverflow/Empty; InvalidDigit for a lone sign or a foreign byte in a body of L bytes with r^L <= 2^(W-1); any Err for a foreign byte in a longer string); parse_bytes = .ok(); FromStr = radix 10; parse_str_radix on valid input; from_radix_*: Some(v) iff all digits < radix and v < 2^W. The model is compared with the primitives' from_str_radix on a fixed corpus at start-up. NON-TRIVIAL: body length >= capacity - 1, or redundant leading zeros, or a foreign byte present, or value within 6 bits of a bound / unrepresentable. distinct = distinct (profile, job, inputs) by 64-bit hash.",
+            rule: "Grammar-based strings `sign? zeros{0..k} digits` for every radix 2..=36 in every run (cycled deterministically): digits come from the reference conversion of {0, 1, small, unsigned MAX, signed MAX, |MIN|, 2^W, 2^(W+1) (+-2), r^j +- 1, structured patterns} or are random digit strings of length capacity(r) + {-2..2}, or prefix-structured strings numeral(P) ++ m whole chunks (P a structured binary pattern, so the parser's running value has zero / extreme binary digits at a chunk boundary), optionally preceded by whole chunks of zeros; k up to 2*capacity + 2 redundant leading zeros; lower/upper/mixed case letters; invalid strings = one foreign byte (space, tab, newline, NUL, '_', '.', '+', '-', '/', ':', '@', '[', '`', '{', a digit >= radix, multi-byte UTF-8 incl. a non-ASCII decimal digit) inserted at start / after the sign / middle / end of an otherwise valid string (half of them truncated to 1..5 digits so that the InvalidDigit requirement applies); empty string, lone signs, double signs; invalid UTF-8 for parse_bytes; out-of-range radices {0, 1, 37, 38, 255, 256, 257, u32::MAX}. Digit slices for from_radix_be/le: every radix 2..=256 in every run, built the same way, with excess most-significant zero digits, one digit >= radix injected, empty slice. Oracle: parse_model returns the SET of acceptable outcomes (exact Ok(v); exact PosOverflow/NegOverflow/Empty; InvalidDigit for a lone sign or a foreign byte in a body of L bytes with r^L <= 2^(W-1); any Err for a foreign byte in a longer string); parse_bytes = .ok(); FromStr = radix 10; parse_str_radix on valid input; from_radix_*: Some(v) iff all digits < radix and v < 2^W. The model is compared with the primitives' from_str_radix on a fixed corpus at start-up. NON-TRIVIAL: body length >= capacity - 1, or redundant leading zeros, or a foreign byte present, or value within 6 bits of a bound / unrepresentable. distinct = distinct (profile, job, inputs) by 64-bit hash.",
             assumptions: &[
                 "digits()/from_digits()/to_bits()/from_bits() are the trusted observation channel",
                 "the error kind for LONG invalid strings is outside the property; parse_str_radix on invalid input is documented to panic and not called",
